@@ -158,6 +158,26 @@ let handle cmd =
                       (adj_max_step u) (Fin (adj_penalty u)) (zn p1b) (zn p1e) (zn p2b) (zn p2e)
                       (eff_window u (nat_of_int r) (nat_of_int c)) in
     (match res with RSqrt v -> "sqrt " ^ str_cost v | RPlain v -> "plain " ^ str_cost v) ^ (if ok then " ok" else " OUT-OF-BOUNDS")
+  | "pywpsgen" ->
+    (* the fill part of dtw.warping_paths as regenerated from dtw.py (Gen_pywps.v); b < 0: no bound *)
+    let b = nint () in let u = rd_usettings () in let s1 = rd_series () in let s2 = rd_series () in
+    let a1 = Array.of_list s1 and a2 = Array.of_list s2 in
+    let r = Array.length a1 and c = Array.length a2 in
+    let idist i j = let i = int_of_z i and j = int_of_z j in
+      if i >= 0 && i < r && j >= 0 && j < c then Fin (pdist u.u_inner a1.(i) a2.(j)) else Inf in
+    let (mld, mld_some) = (match u.u_max_length_diff with None -> (Inf, true) | Some m -> (Fin m, true)) in
+    let ((p1b, p1e), (p2b, p2e)) = u.u_psi in
+    let zn n = z_of_int (int_of_nat n) in
+    let (res, ok) = py_wps_fill idist [] (z_of_int r) [] (z_of_int c) (if b < 0 then Inf else Fin (z_of_int b)) mld mld_some
+                      (adj_max_step u) true (Fin (adj_penalty u)) (zn p1b) (zn p1e) (zn p2b) (zn p2e)
+                      (eff_window u (nat_of_int r) (nat_of_int c)) in
+    (match res with
+     | None -> "none"
+     | Some flat ->
+       let rec rows l = if l = [] then [] else
+         let rec take k l = if k = 0 then ([], l) else (match l with [] -> ([], []) | x :: t -> let (a, b) = take (k - 1) t in (x :: a, b)) in
+         let (a, b) = take (c + 1) l in a :: rows b in
+       str_matrix (rows flat)) ^ (if ok then " | ok" else " | OUT-OF-BOUNDS")
   | "ced" ->
     (* the Euclidean routines of dd_ed.c as regenerated (Gen_ced.v) *)
     let variant = nint () in let nd = nint () in
